@@ -96,3 +96,13 @@ Theorem c10_read_stream : forall ps ds cs e tail, Forall2 framed ps ds -> nonemp
   List.concat cs = List.concat ds ++ tail ->
   read_many (List.length ps) {| s_buf := []; s_chunks := cs; s_end := e |} = map (fun p => PktOk (fst p) (snd p)) ps.
 Proof. exact read_stream_fresh. Qed.
+
+(* the padding and length arithmetic of the model is what the translator derives, statement by statement, from the current
+   ssh_socket.py (send_packet; SSH-1 branch of read_packet) *)
+From VProofs Require Import TieProofs.
+Theorem c10_tie_send_packet_padding : forall n, pad_len n = src_send_packet_padding n.
+Proof. exact tie_send_packet_padding. Qed.
+Theorem c10_tie_send_packet_length : forall n, n + pad_len n + 1 = src_send_packet_length n.
+Proof. exact tie_send_packet_length. Qed.
+Theorem c10_tie_ssh1_padding_length : forall plen, 8 - plen mod 8 = src_ssh1_padding_length plen.
+Proof. exact tie_ssh1_padding_length. Qed.
